@@ -84,6 +84,7 @@ fn kind_name(op: &Op) -> &'static str {
         Op::LocalBurst { .. } => "LocalBurst",
         Op::HoldChild => "HoldChild",
         Op::EventNew { .. } => "EventNew",
+        Op::UserPanic { .. } => "UserPanic",
         Op::AddEventFrom { .. } => "AddEventFrom",
         Op::Collect { .. } => "Collect",
         Op::UnwindScope { .. } => "UnwindScope",
@@ -161,6 +162,8 @@ fn common_probes(a: &Analysis, v: &mut Verdict) {
     let count_ops = |f: &dyn Fn(&Op) -> bool| a.case.ops.iter().filter(|r| f(&r.op) || r.inner.iter().any(|o| f(o))).count() as u64;
     v.probe("fault.cancel_calls", count_ops(&|o| matches!(o, Op::Cancel { .. })));
     v.probe("fault.unwind_through_scope", count_ops(&|o| matches!(o, Op::UnwindScope { .. })));
+    v.probe("fault.user_code_panics_inside_call", count_ops(&|o| matches!(o, Op::UserPanic { .. })));
+    v.probe("prepared_events_recorded_later", count_ops(&|o| matches!(o, Op::AddEventFrom { .. })));
     v.probe("fault.teardown_calls", count_ops(&|o| matches!(o, Op::TeardownCalls { .. })));
     v.probe("fault.scope_limit_bursts", count_ops(&|o| matches!(o, Op::LocalBurst { .. } | Op::ScopeBurst { .. })));
     v.probe("fault.scope_collected_with_open_spans", count_ops(&|o| matches!(o, Op::Collect { .. })));
